@@ -144,11 +144,26 @@ static void cmd_mat(kv_t *K)
 /* new values on the same pattern */
 static void cmd_vals(kv_t *K)
 {
-    rng_t R; int k; R.s = (unsigned long) kv_i(K, "seed", 2) * 104729ul + 3;
+    rng_t R; int k, zeroed = 0; R.s = (unsigned long) kv_i(K, "seed", 2) * 104729ul + 3;
     for (k = 0; k < S.nnz; ++k) { lc v = to_lc(S.val0[k]); double f = 0.5 + 1.5 * rng_unit(&R); if (rng_int(&R, 4) == 0) f = -f; S.val0[k] = from_lc(v * (lc) f); }
+    {   /* zp=K: up to K entries that were PIVOTS of the factorization at hand become exactly zero (column-wise storage; only where the row
+	   and the column keep another nonzero and the matrix stays nonsingular): a request to reuse the old row order must then fall back */
+	int zp = (int) kv_i(K, "zp", 0), tries = 0, done = 0, n = S.n;
+	while (zp > 0 && done < zp && tries++ < 8 * zp && S.haveLU && S.stype == 0 && is_perm(S.perm_r, n) && is_perm(S.perm_c, n)) {
+	    int jc = (int) rng_int(&R, n), i, kk, at = -1, others = 0, rowothers = 0, j2;
+	    for (kk = S.ptr[jc]; kk < S.ptr[jc + 1]; ++kk) { if (S.perm_r[S.ind[kk]] == S.perm_c[jc]) at = kk; else if (cabsl(to_lc(S.val0[kk])) > 0) ++others; }
+	    if (at < 0 || !others || cabsl(to_lc(S.val0[at])) == 0) continue;
+	    i = S.ind[at];
+	    for (j2 = 0; j2 < n; ++j2) if (j2 != jc) for (kk = S.ptr[j2]; kk < S.ptr[j2 + 1]; ++kk) if (S.ind[kk] == i && cabsl(to_lc(S.val0[kk])) > 0) ++rowothers;
+	    if (!rowothers) continue;
+	    {   SCALAR keep = S.val0[at]; lc *Inv; S.val0[at] = mk_scalar(0, 0); build_dense(); Inv = ref_inverse(n, S.Ad);
+		if (!Inv) S.val0[at] = keep; else { long double an = norm1(n, S.Ad) * norm1(n, Inv); free(Inv); if (!(an < 1e6L)) S.val0[at] = keep; else ++done; } }
+	}
+	zeroed = done;
+    }
     memcpy(S.val, S.val0, sizeof(SCALAR) * S.nnz);
     S.ver++; build_dense();
-    vrt_log_raw("\"e\":\"Call\",\"call\":\"vals\",\"ver\":%d", S.ver);
+    vrt_log_raw("\"e\":\"Call\",\"call\":\"vals\",\"ver\":%d,\"zeroed\":%d", S.ver, zeroed);
 }
 
 static void cmd_permc(kv_t *K)
@@ -295,11 +310,21 @@ static unsigned long out_hash(const SCALAR *x, int ldx, int nrhs, long info, dou
 /* nothing outside [work, work+lwork) may be written: the guard zones and the unused tail keep their fill */
 static int guards_ok(long lwork)
 {
-    long i; unsigned char *w = (unsigned char *) S.workbase;
-    for (i = 0; i < GUARD; ++i) if (w[i] != 0x5a) return 0;
+    long i, off = (char *) S.work - S.workbase; unsigned char *w = (unsigned char *) S.workbase;
+    for (i = 0; i < off; ++i) if (w[i] != 0x5a) return 0;
     for (i = 0; i < GUARD; ++i) if (w[GUARD + WORKMAX + i] != 0x5a) return 0;
-    if (lwork > 0 && lwork < WORKMAX) for (i = lwork; i < lwork + 4096 && i < WORKMAX; ++i) if (w[GUARD + i] != 0x5a) return 0;
+    if (lwork > 0 && off + lwork < GUARD + WORKMAX) for (i = off + lwork; i < off + lwork + 4096 && i < GUARD + WORKMAX; ++i) if (w[i] != 0x5a) return 0;
     return 1;
+}
+/* a fresh factorization in the caller's workspace: the buffer starts woff bytes into the arena (callers carve workspaces out of pools:
+   nothing documents an alignment), and everything OUTSIDE [work, work + lwork) gets the guard fill again (the inside keeps whatever the
+   previous call left there: stale contents are part of what C18 quantifies over) */
+static void place_work(long lwork, int woff)
+{
+    long off = GUARD + woff;
+    S.work = S.workbase + off;
+    memset(S.workbase, 0x5a, off);
+    if (off + lwork < GUARD + WORKMAX) memset(S.workbase + off + lwork, 0x5a, GUARD + WORKMAX - off - lwork);
 }
 static trans_t tr_of(const char *s) { return s[0] == 'T' ? TRANS : s[0] == 'C' ? CONJ : NOTRANS; }
 static void cmd_gssvx(kv_t *K)
@@ -344,7 +369,8 @@ static void cmd_gssvx(kv_t *K)
 	memcpy(S.val, vsave, sizeof(SCALAR) * S.nnz); memcpy(S.perm_c, pcs, sizeof(int_t) * n); memcpy(S.perm_r, prs, sizeof(int_t) * n);
 	Destroy_SuperMatrix_Store(&QB); Destroy_SuperMatrix_Store(&QX); SUPERLU_FREE(qb); SUPERLU_FREE(qx); free(vsave); SUPERLU_FREE(pcs); SUPERLU_FREE(prs);
     } else if (autopct) lwork = S.lwork > 0 ? S.lwork : 1;
-    if (lwork > 0) { if (lwork > WORKMAX) lwork = WORKMAX; S.lwork = lwork; }
+    if (lwork > 0) { if (lwork > WORKMAX - 64) lwork = WORKMAX - 64; S.lwork = lwork; }
+    if (lwork > 0 && fact != FACTORED && !refact) place_work(lwork, (int) kv_i(K, "woff", 0));
     S.opt.nprocs = P; S.opt.fact = fact; S.opt.trans = tr_of(trs); S.opt.refact = refact ? YES : NO;
     S.opt.panel_size = sp_ienv(1); S.opt.relax = sp_ienv(2); S.opt.diag_pivot_thresh = u; S.opt.usepr = usepr ? YES : NO;
     S.opt.drop_tol = 0; S.opt.SymmetricMode = sym ? YES : NO; S.opt.PrintStat = NO;
@@ -540,7 +566,8 @@ static void cmd_sinit(kv_t *K)
     long lwork = kv_i(K, "lwork", 0); double u = kv_d(K, "u", 1.0);
     Gstat_t Gstat; int_t *pc_in = intMalloc(n), *pr_in = intMalloc(n); unsigned long ckA; long live0, live1;
     int acok = 1, etpost = 1, postonly = 1, permunch;
-    if (lwork > WORKMAX) lwork = WORKMAX;
+    if (lwork > WORKMAX - 64) lwork = WORKMAX - 64;
+    if (lwork > 0 && !refact) place_work(lwork, (int) kv_i(K, "woff", 0));
     restore_values();
     memcpy(pc_in, S.perm_c, sizeof(int_t) * n); memcpy(pr_in, S.perm_r, sizeof(int_t) * n);
     StatAlloc(n, P, sp_ienv(1), sp_ienv(2), &Gstat); StatInit(n, P, &Gstat);
